@@ -1487,6 +1487,7 @@ static aligned_t qt_qsort_inner(const struct qt_qsort_iargs *a)
         while (furthest.rightwall > furthest.leftwall &&
                furthest.rightwall - furthest.leftwall > (2 * thread_chunk)) {
             const size_t offset = furthest.leftwall;
+            const size_t gap    = furthest.rightwall - furthest.leftwall;
 
             furthest =
                 qt_qsort_inner_partitioner(array + furthest.leftwall,
@@ -1494,6 +1495,13 @@ static aligned_t qt_qsort_inner(const struct qt_qsort_iargs *a)
                                            furthest.leftwall + 1, pivot);
             furthest.leftwall  += offset;
             furthest.rightwall += offset;
+            if ((furthest.rightwall <= furthest.leftwall) ||
+                (furthest.rightwall - furthest.leftwall >= gap)) {
+                /* this pass did not narrow the gap (it moved neither wall), so the
+                 * next one would do exactly the same: stop, the sequential pass
+                 * below partitions whatever is left between the walls */
+                break;
+            }
         }
         /* data between furthest.leftwall and furthest.rightwall is unlikely to be partitioned correctly */
         {
